@@ -356,10 +356,20 @@ func (db *RockDB) ZFixKey(ts int64, key []byte) error {
 		dbLog.Infof("get zset card failed: %v", err.Error())
 		return err
 	}
-	elems, err := db.ZRange(key, 0, -1)
+	// the members must be read at the log timestamp like the size above, not at this replica's wall
+	// clock (ZRange): a zset whose expire time lies between the two was emptied or revived by the repair
+	keyInfo, err := db.getZSetForRangeWithNum(ts, key, common.MinScore, common.MaxScore, false)
 	if err != nil {
 		dbLog.Infof("get zset range failed: %v", err.Error())
 		return err
+	}
+	var elems []common.ScorePair
+	if !keyInfo.IsNotExistOrExpired() {
+		elems, err = db.zRangeBytes(ts, false, key, keyInfo.RangeStart, keyInfo.RangeEnd, 0, -1, false)
+		if err != nil {
+			dbLog.Infof("get zset range failed: %v", err.Error())
+			return err
+		}
 	}
 	if len(elems) != int(n) {
 		dbLog.Infof("unmatched length : %v, %v, detail: %v", n, len(elems), elems)
